@@ -79,13 +79,14 @@ def isRef : Bytes → Bool
   | [] => false
   | s@(_ :: t) => matchesAt s || isRef t
 
-/-- `NewHead`: the branch name is the last `/` component of the second `": "` field -/
+/-- text after the first occurrence of `ref: refs/heads/` -/
+def afterPrefix : Bytes → Option Bytes
+  | [] => none
+  | s@(_ :: t) => if Bytes.hasPrefix s refPrefix then some (s.drop refPrefix.length) else afterPrefix t
+
+/-- `NewHead` (repaired): the branch name is everything after `ref: refs/heads/` (it may contain `": "`) -/
 def parse (content : Bytes) : Option Bytes :=
-  if isRef content then
-    match Bytes.splitSeq (asc ": ") content with
-    | _ :: f :: _ => (Bytes.split1 47 f).getLast?
-    | _ => none
-  else none
+  if isRef content then afterPrefix content else none
 
 /-- `Head.Update` writes this -/
 def render (branch : Bytes) : Bytes := refPrefix ++ branch
